@@ -81,4 +81,12 @@ let step _ cs os =
      with Timeout -> out := "BAD\tside=impl\tclause=crash:puller-timeout" :: !out));
   !out
 
-let () = run step
+(* the extracted list functions are not tail-recursive and the largest cases carry
+   payloads of a few MiB: run with the stack limit lifted (re-exec once through sh) *)
+let () =
+  match Sys.getenv_opt "C09_STACK" with
+  | Some _ -> run step
+  | None ->
+    let cmd = Printf.sprintf "ulimit -s unlimited 2>/dev/null || ulimit -s 4000000 2>/dev/null || true; C09_STACK=1 exec %s"
+        (Filename.quote Sys.executable_name) in
+    exit (Sys.command cmd)
